@@ -113,7 +113,12 @@ def plot_live_points(
     df = df.dropna(axis="columns", how="all")
     df = df[np.isfinite(df).all(1)]
 
-    if c is not None:
+    if c is not None and c not in df:
+        logger.warning(
+            f"Selected hue variable: {c} has no finite values! Disabling."
+        )
+        hue = None
+    elif c is not None:
         hue = df[c]
         if np.all(hue == hue[0]):
             logger.warning(
